@@ -277,7 +277,7 @@ Proof.
   assert (N1 : In (RwTbl ho body) (rw_next false f pos st e1)).
   { replace ho with (ho + 32 - 32) at 1 by lia.
     apply (rw_in_idle f pos st (ho + 32) body _ 3%nat Hs). cbn [nth_error]. f_equal.
-    unfold rw_opt. replace (rw_is_tbl (rw_hist st) (rw_n st) (ho + 32) body) with true; [reflexivity |].
+    unfold rw_opt. replace (rw_is_tbl false (rw_hist st) (rw_n st) (ho + 32) body) with true; [reflexivity |].
     symmetry. unfold rw_is_tbl. rewrite Hrl. replace (ho + 32 - 32) with ho by lia.
     replace (32 <? ho + 32) with true by (symmetry; apply N.ltb_lt; lia).
     replace (ho + 32 + 136 <=? rw_n st) with true by (symmetry; apply N.leb_le; fold a; fold T in T2; lia).
